@@ -96,7 +96,7 @@ pub fn random_shape(rng: &mut rand_chacha::ChaChaRng, name: &str, max_pad: usize
 }
 
 fn n_explicit_cons(s: &Shape) -> usize {
-    let f = |ops: &[Op]| ops.iter().filter(|o| matches!(o, Con | ConConst | ConCommitted)).count();
+    let f = |ops: &[Op]| ops.iter().filter(|o| matches!(o, Con | ConConst | ConCommitted | ConTree(_, _))).count();
     f(&s.phase1) + s.phase2.iter().map(|p| f(p)).sum::<usize>()
 }
 
@@ -170,6 +170,21 @@ pub fn c03_shapes(thorough: bool, seed: u64) -> Vec<Shape> {
         for k in 0..10 {
             v.push(random_shape(&mut rng, &format!("random{}", k), 8));
         }
+    }
+    v
+}
+
+/// C15 pipeline: one-constraint circuits `expr - c` over committed and gate variables.
+pub fn c15_pipeline_cases(thorough: bool, seed: u64) -> Vec<(Shape, ErrPlan)> {
+    let mut v = vec![];
+    let n = if thorough { 40 } else { 8 };
+    for k in 0..n {
+        let depth = 1 + (k % 3) as usize;
+        let tseed = seed.wrapping_mul(1000).wrapping_add(k as u64);
+        let p1: Vec<Op> = if k % 2 == 0 { vec![Commit, Commit, AllocMul, ConTree(tseed, depth)] } else { vec![Commit, AllocMul, Alloc, Alloc, ConTree(tseed, depth)] };
+        // accept case (c is the value) and reject case (c is off by a symbolic non-zero amount)
+        v.push((Shape::new(&format!("tree{}_accept", k), &p1, &[]), ErrPlan::default()));
+        v.push((Shape::new(&format!("tree{}_offset", k), &p1, &[]), ErrPlan { con: vec![0], gate: vec![] }));
     }
     v
 }
